@@ -42,7 +42,7 @@ def plan(tier):
     return {"cases": 8000 if tier == "quick" else 80000, "shards": 16, "case_timeout": 30, "shard_timeout": 3000,
             "min_nontrivial": 100,
             "min_counters": {"instances_compared": 5000, "kind:ref": 300, "kind:alt": 300, "kind:next": 300,
-                             "bindings_interpreted": 5000}}
+                             "bindings_interpreted": 5000, "worlds_with_equal_but_distinct_objects": 500}}
 
 
 def setup(ctx):
@@ -164,6 +164,14 @@ def gen_quant(rng):
 
 
 def gen(rng, tier, ctx):
+    case = gen_case(rng, tier, ctx)
+    if rng.random() < 0.2 and "world" in case:
+        G.with_equal_but_distinct_objects(case["world"])
+        case["equal_objects"] = True
+    return case
+
+
+def gen_case(rng, tier, ctx):
     if rng.random() < 0.12:
         return gen_flat(rng)
     if rng.random() < 0.1:
@@ -468,6 +476,7 @@ def run(spec, ctx):
     m = ctx["m"]
     C = ctx["counters"]
     objs = G.make_world(spec, m)
+    C["worlds_with_equal_but_distinct_objects"] += bool(spec.get("equal_objects"))
     idmap = {id(o): i for i, o in enumerate(objs)}
     names = [v["name"] for v in spec["vars"]]
     feats = tree_features(spec["rule"])
